@@ -6,6 +6,7 @@ import (
 	"verif/harness/mon/c10"
 	"verif/harness/mon/c11"
 	"verif/harness/mon/c17"
+	"verif/harness/mon/c19"
 )
 
 func init() {
@@ -14,4 +15,5 @@ func init() {
 	register("C10", c10.Run)
 	register("C11", c11.Run)
 	register("C17", c17.Run)
+	register("C19", c19.Run)
 }
